@@ -122,6 +122,7 @@ EXC_BASES = {
     "NameError": "Exception",
     "UnboundLocalError": "NameError",
     "JSONDecodeError": "ValueError",
+    "UnsupportedOperation": "OSError",  # io.UnsupportedOperation (OSError and ValueError; single inheritance is enough here)
 }
 
 
@@ -945,6 +946,8 @@ class Interp:
                 raise PyRaise(fr.env.lookup("__active_exc__"))
             raise Unsupported("bare raise outside handler")
         e = self.eval(cx, fr, st.exc)
+        if isinstance(e, SMaybe):
+            e = e.force(cx, "TypeError")  # `raise None`: exceptions must derive from BaseException
         if isinstance(e, SClass):
             e = ExcVal(e.name, (), st.lineno)
         if not isinstance(e, ExcVal):
